@@ -2,7 +2,7 @@ SPECIFICATION SpecMC
 CONSTANTS
   MaxSteps = 2
   Depth = 0
-  OpNames = {"AddImage", "AddHeader", "AddFooterWithPageNumber", "AddListItem", "AddFootnote", "SetFootnoteConfig", "SetProps", "Placeholder", "Render", "Reopen"}
+  OpNames = {"AddImage", "AddHeader", "AddFooterWithPageNumber", "AddListItem", "AddFootnote", "SetFootnoteConfig", "SetProps", "Placeholder", "Render", "Reopen", "RemoveFootnote"}
   KindsC = {"default", "first"}
   WhereC = {"body", "resource"}
   ViaC = {"data", "item", "text", "props", "mem", "doc"}
